@@ -33,8 +33,12 @@ func inList(ss []string, k string) bool {
 
 func runC17(w *W) {
 	perturbCache = true
+	walkLunar = true
 	sweepDays(w, "C17", func(d *Day, prev *Day) {
 		t0 := tbTimes[d.J%len(tbTimes)]
+		if d.J%8 == 3 {
+			t0 = hms{0, 0, 0} // the moment at which lunarP hands out the sweep's walking object
+		}
 		l := lunarP(d.At(t0.h, t0.m, t0.s), d.J)
 		ly, lm, ld := l.GetYear(), l.GetMonth(), l.GetDay()
 		where := fmt.Sprintf("%s (%s)", d.Ymd, lunarYmd(l))
@@ -160,6 +164,29 @@ func runC17(w *W) {
 		}
 		vec = append(vec, xiu, render1(tao.GetFestivals()), render1(foto.GetFestivals()), render1(foto.GetOtherFestivals()))
 		w.FDCheck("C17:predicates", key, strings.Join(vec, ","), d.Ymd)
+		// the answers do not depend on what the object was asked before: second objects of the same date, asked for
+		// festivals and printed forms first and for the predicates in reverse order, answer the same
+		{
+			tao2, foto2 := l.GetTao(), l.GetFoto()
+			var vec2 []string
+			if msg, pn := try(func() {
+				f2a, f2b, t2 := render1(foto2.GetFestivals()), render1(foto2.GetOtherFestivals()), render1(tao2.GetFestivals())
+				_, _, _, _ = foto2.ToFullString(), foto2.String(), tao2.ToFullString(), tao2.String()
+				x2 := foto2.GetXiu()
+				second := []func() bool{tao2.IsDaySanHui, tao2.IsDaySanYuan, tao2.IsDayWuLa, tao2.IsDayBaJie, tao2.IsDayBaHui, tao2.IsDayMingWu, tao2.IsDayAnWu, tao2.IsDayWu,
+					foto2.IsMonthZhai, foto2.IsDayZhaiShuoWang, foto2.IsDayZhaiTen, foto2.IsDayZhaiGuanYin, foto2.IsDayYangGong}
+				res := make([]string, len(second))
+				for i := len(second) - 1; i >= 0; i-- {
+					res[i] = fmt.Sprint(second[i]())
+				}
+				vec2 = append(res, x2, t2, f2a, f2b)
+			}); pn {
+				w.Viol("C17:order:panic:"+md, fmt.Sprintf("predicates panic on %s when the object was asked for festivals first: %s", where, msg), d.Ymd)
+			} else if len(vec2) == len(vec) && strings.Join(vec2, ",") != strings.Join(vec, ",") {
+				w.Viol("C17:order:"+md, fmt.Sprintf("on %s the predicates/festivals answer %s on a fresh object but %s on one that was asked for festivals and printed forms first", where, strings.Join(vec, ","), strings.Join(vec2, ",")), d.Ymd)
+			}
+			w.R.Evals++
+		}
 		if nontriv {
 			w.R.Nontrivial++
 		}
